@@ -187,7 +187,11 @@ Definition add_variables (vt : vartype) (lb ub : option Qc) (ls : list label) (q
   let '(lb', ub') := norm_bounds vt lb ub in
   let l0 := opt_or lb' (fst (default_bounds vt)) in
   let u0 := opt_or ub' (snd (default_bounds vt)) in
-  if Qc_ltb u0 l0 then (q, XValue)
+  (* vartype_info min/max: for INTEGER and REAL the largest magnitude is the default upper bound *)
+  let mx := snd (default_bounds vt) in
+  let out_of_range := match vt with INTEGER | REAL => Qc_ltb l0 (- mx) || Qc_ltb mx u0 | _ => false end in
+  if out_of_range then (q, XValue)
+  else if Qc_ltb u0 l0 then (q, XValue)
   else let '(vs, e) := add_vars_loop vt lb' ub' ls (q_vars q) in (set_vars q vs, e).
 
 (* model -> CQM variable merge of add_constraint_from_model / _set_objective_from_cyqm *)
